@@ -225,6 +225,10 @@ class Run:
                 obj = [(int(n), np.array(p)) for n, p in r["data"]]
             elif k == "var":
                 obj = np.array(r["value"])
+            elif k == "loss_option":
+                obj = W.build_loss_option(r["cls"], r["spec"])
+            elif k == "algo_option":
+                obj = W.build_algo_option(r["cls"], r["spec"])
             elif k == "mdist":
                 from quara.objects.multinomial_distribution import MultinomialDistribution
 
@@ -438,8 +442,8 @@ class Run:
         if self.pool[st["estimator"]]["cls"] == "lossmin":
             loss = get(st["loss"])
             algo = get(st["algo"])
-            lopt = W.build_loss_option(self.pool[st["loss"]]["cls"], st["loss_option"])
-            aopt = W.build_algo_option(self.pool[st["algo"]]["cls"], st["algo_option"])
+            lopt = get(st["loss_option_id"]) if st.get("loss_option_id") is not None else W.build_loss_option(self.pool[st["loss"]]["cls"], st["loss_option"])
+            aopt = get(st["algo_option_id"]) if st.get("algo_option_id") is not None else W.build_algo_option(self.pool[st["algo"]]["cls"], st["algo_option"])
             res = est.calc_estimate_sequence(qt, seq, loss=loss, loss_option=lopt, algo=algo, algo_option=aopt, is_computation_time_required=False)
         else:
             res = est.calc_estimate_sequence(qt, seq, is_computation_time_required=False)
@@ -449,7 +453,7 @@ class Run:
         loss = get(st["loss"])
         qt = self.tomo_for(st, get)
         ds = get(st["dataset"])
-        lopt = W.build_loss_option(self.pool[st["loss"]]["cls"], st["loss_option"])
+        lopt = get(st["loss_option_id"]) if st.get("loss_option_id") is not None else W.build_loss_option(self.pool[st["loss"]]["cls"], st["loss_option"])
         loss.set_from_standard_qtomography_option_data(qt, lopt, ds, True, False)
         var = np.array(st["var"])
         return {"value": loss.value(var), "gradient": loss.gradient(var), "arg_after": var, "arg_before": np.array(st["var"])}
@@ -523,18 +527,18 @@ class Run:
         if op == "mutate":
             return self.step_mutate(idx, st, sig)
         if op == "chain":
-            subs = [sub for sub in st["steps"] if all(sub.get(k) is None or 0 <= sub[k] < len(self.pool) for k in ("estimator", "tomo", "dataset", "loss", "algo", "sequence"))]
+            subs = [sub for sub in st["steps"] if all(sub.get(k) is None or 0 <= sub[k] < len(self.pool) for k in ("estimator", "tomo", "dataset", "loss", "algo", "sequence", "loss_option_id", "algo_option_id"))]
             if not subs:
                 return
             st = dict(st, steps=subs)
             for sub in subs:
-                for key in ("estimator", "tomo", "dataset", "loss", "algo", "sequence"):
+                for key in ("estimator", "tomo", "dataset", "loss", "algo", "sequence", "loss_option_id", "algo_option_id"):
                     if sub.get(key) is not None:
                         self.build_entry(sub[key], None, True)
                 self.track_probes(sub, {"op": sub["op"], "name": None, "kind": None})
             sig = dict(sig, name="+".join(sub["op"] for sub in subs))
         # operands must exist
-        for key in ("on", "csys", "estimator", "tomo", "dataset", "loss", "algo", "sequence", "obj", "basis"):
+        for key in ("on", "csys", "estimator", "tomo", "dataset", "loss", "algo", "sequence", "obj", "basis", "loss_option_id", "algo_option_id"):
             if key in st and st[key] is not None and not (0 <= st[key] < len(self.pool)):
                 return  # shrunk record: operand disappeared -> no-op
         for i in st.get("ids", []):
@@ -542,7 +546,7 @@ class Run:
                 return
         # make sure the live operands exist before the snapshot
         live_get = lambda i: self.build_entry(i, None, True)
-        for key in ("on", "csys", "estimator", "tomo", "dataset", "loss", "algo", "sequence", "obj", "basis"):
+        for key in ("on", "csys", "estimator", "tomo", "dataset", "loss", "algo", "sequence", "obj", "basis", "loss_option_id", "algo_option_id"):
             if key in st and st[key] is not None:
                 live_get(st[key])
         for i in st.get("ids", []):
@@ -597,7 +601,7 @@ class Run:
             path = _first_diff(_strip(ca), _strip(cb), "result")
             extra = {}
             if op in ("estimate", "loss_eval"):
-                extra = {"loss": self.pool[st["loss"]]["cls"] if st.get("loss") is not None else None, "mode_weight": (st.get("loss_option") or {}).get("mode_weight"),
+                extra = {"loss": self.pool[st["loss"]]["cls"] if st.get("loss") is not None else None, "mode_weight": (st.get("loss_option") or {}).get("mode_weight") if st.get("loss_option") else "pool_option",
                          "estimator": self.pool[st["estimator"]]["cls"] if "estimator" in st else None}
             raise Violation("O2_history_independence", f"step {idx} ({op} {sig['name']}): result differs from the same step in a fresh world at {path[0]} ({path[1]}, max abs diff {path[2]})",
                             {"step": idx, "st": to_jsonable(st), "field": path[0], "max_abs_diff": path[2]}, dict(sig, **extra))
@@ -696,7 +700,8 @@ class Run:
                 self.bump("probes", "with_var_projection_para_false")
         if op in ("estimate", "loss_eval") and st.get("loss") is not None:
             h = self.loss_history.setdefault(st["loss"], [])
-            h.append(((st.get("loss_option") or {}).get("mode_weight"), st["dataset"]))
+            spec = st.get("loss_option") or (self.pool[st["loss_option_id"]]["spec"] if st.get("loss_option_id") is not None and st["loss_option_id"] < len(self.pool) else {})
+            h.append((spec.get("mode_weight"), st["dataset"]))
             if len({m for m, _ in h}) >= 2 and len({d for _, d in h}) >= 2:
                 self.bump("probes", "loss_object_used_with_2_modes_and_2_datasets")
             if len(h) >= 2:
@@ -1047,6 +1052,36 @@ class Generator:
         return {"eq": rng.random() < 0.75, "ineq": rng.random() < 0.75, "max_iteration": rng.choice([3, 10, 30]), "proj_order": rng.choice(["eq_ineq", "ineq_eq"]), "eps": rng.choice([1e-6, 1e-9]),
                 "stopping": rng.choice(["single_difference_loss", "sum_absolute_difference_variable"]), "num_history": 1}
 
+    def pool_option(self, kind, cls, make_spec):
+        """an option object that lives in the pool and is handed to several calls (the same Python object every time)."""
+        rng = self.rng
+        have = [i for i, r in enumerate(self.pool) if r["kind"] == kind and r["cls"] == cls and (kind != "loss_option" or r.get("tomo_shape") == make_spec[1])]
+        if have and (len(have) >= 3 or rng.random() < 0.6):
+            return rng.choice(have)
+        rec = {"kind": kind, "cls": cls, "spec": make_spec[0]()}
+        if kind == "loss_option":
+            rec["tomo_shape"] = make_spec[1]
+        self.pool.append(rec)
+        if self.pool0 is not None:
+            self.pool0.append(rec)
+        return len(self.pool) - 1
+
+    def attach_options(self, st, t):
+        """half of the time the options of an estimation are pool objects re-used across calls, otherwise fresh literals."""
+        rng = self.rng
+        if rng.random() < 0.5:
+            return
+        trec = self.pool[t]
+        shape = f"{trec['type']}:{len(trec['testers'])}"
+        if st.get("loss") is not None:
+            lcls = self.pool[st["loss"]]["cls"]
+            st["loss_option_id"] = self.pool_option("loss_option", lcls, (lambda: self.loss_option(lcls, trec), shape))
+            st["loss_option"] = None
+        if st.get("algo") is not None:
+            acls = self.pool[st["algo"]]["cls"]
+            st["algo_option_id"] = self.pool_option("algo_option", acls, (lambda: self.algo_option(), None))
+            st["algo_option"] = None
+
     def g_estimate(self):
         rng = self.rng
         tomos = [t for t in self.ids("tomo") if self.pool[t]["type"] != "qpt" or rng.random() < 0.3]
@@ -1065,6 +1100,7 @@ class Generator:
             st["algo"] = rng.choice(self.ids("algo"))
             st["loss_option"] = self.loss_option(self.pool[st["loss"]]["cls"], self.pool[t])
             st["algo_option"] = self.algo_option()
+            self.attach_options(st, t)
         return st
 
     def g_chain(self):
@@ -1105,8 +1141,10 @@ class Generator:
         l = rng.choice(self.ids("loss"))
         rec = self.pool[t]
         nvar = {"qst": 3 if rec["para"] else 4, "povmt": 4 if rec["para"] else 8}[rec["type"]]
-        return {"op": "loss_eval", "loss": l, "tomo": t, "dataset": rng.choice(ds), "loss_option": self.loss_option(self.pool[l]["cls"], rec), "var": ops.rand_var(rng, nvar, 0.3),
-                "ephemeral": rng.random() < 0.35, "reuse_address": (not self.fault_free) and rng.random() < 0.6}
+        st = {"op": "loss_eval", "loss": l, "tomo": t, "dataset": rng.choice(ds), "loss_option": self.loss_option(self.pool[l]["cls"], rec), "var": ops.rand_var(rng, nvar, 0.3),
+              "ephemeral": rng.random() < 0.35, "reuse_address": (not self.fault_free) and rng.random() < 0.6}
+        self.attach_options(st, t)
+        return st
 
     def g_basis_q(self):
         rng = self.rng
